@@ -24,6 +24,12 @@ def stmt_calls(n, name):
     return n.ast is not None and isinstance(n.ast, (ast.Expr, ast.Assign)) and any(M.call_name(c) == name for c in M.calls(n.ast))
 
 
+def N_same_landing(e, rname):
+    """the test `t + <returned name> > tf - epsilon` (any equivalent spelling)"""
+    from verif_static import norm as N
+    return N.same(e.node, 'self.t + %s > self.tf - self._epsilon' % rname, 'self.t + %s >= self.tf - self._epsilon' % rname)
+
+
 def main(chk):
     chk.explanation = ('CFG rules over Solver.solve: start/end dumps, per-iteration event order (pre callbacks, step(t, dt), post '
                        'callbacks, t += dt, count += 1, dt = _get_timestep(), dump decision) identical on every path and exactly once; '
@@ -181,38 +187,51 @@ def main(chk):
                               'land-on-output-time clamp may change the step' % name, detail_ok='allowed writer')
     chk.floor('writers of self.dt', len(writers), 4)
     chk.floor('methods reachable from solve', len(reach), 10)
-    # --- clamp
+    # --- clamp: decided per feasible path through _dump_output_if_needed (private helpers inlined, path-local names substituted)
+    from verif_static import paths as PT
     dn = M.find_func(cls, '_dump_output_if_needed')
-    clamp = [a for a in ast.walk(dn) if isinstance(a, ast.Assign) and U(a.targets[0]) == 'self.dt']
-    if len(clamp) != 1:
-        chk.violated('clamp', 'single-site', node=dn, file=SOL, func='_dump_output_if_needed', detail='%d assignments to self.dt' % len(clamp))
+    dpaths = PT.enumerate_paths(M.docstring_stripped(dn.body))
+    chk.unit('paths through _dump_output_if_needed', len(dpaths))
+
+    def is_clamp(e):
+        return e.kind == 'stmt' and isinstance(e.node, ast.Assign) and U(e.node.targets[0]) == 'self.dt'
+    cl_paths = [(p_, [i for i, e in enumerate(p_) if is_clamp(e)]) for p_ in dpaths]
+    cl_paths = [(p_, ix) for p_, ix in cl_paths if ix]
+    if not cl_paths:
+        chk.violated('clamp', 'single-site', node=dn, file=SOL, func='_dump_output_if_needed', detail='no path shortens self.dt to land on a requested output time')
     else:
-        c = clamp[0]
-        chk.decide(same(c.value, 'output_time-self.t'), 'clamp', 'lands-on-output-time', node=c, file=SOL,
-                   func='_dump_output_if_needed', detail_bad='clamped step is %s (must be output_time - t: never past a requested time)' % U(c.value),
-                   detail_ok=U(c.value))
-        tb = [a for a in ast.walk(dn) if isinstance(a, ast.Assign) and U(a.targets[0]) == 'timestep_too_big']
-        ok = bool(tb) and same(tb[0].value, '(tdiff>0)&(tdiff<dt)')
-        chk.decide(ok, 'clamp', 'guard', node=tb[0] if tb else dn, file=SOL, func='_dump_output_if_needed',
-                   detail_bad='clamp applies when %s (documented: 0 < tdiff < dt)' % (U(tb[0].value) if tb else None), detail_ok='(tdiff > 0) & (tdiff < dt)')
-        td = [a for a in ast.walk(dn) if isinstance(a, ast.Assign) and U(a.targets[0]) == 'tdiff']
-        dtv = [a for a in ast.walk(dn) if isinstance(a, ast.Assign) and U(a.targets[0]) == 'dt']
-        ok = bool(td) and same(td[0].value, 'output_at_times-self.t') and bool(dtv) and compact(dtv[0].value) == 'self.dt'
-        chk.decide(ok, 'clamp', 'distances', node=dn, file=SOL, func='_dump_output_if_needed',
-                   detail_bad='tdiff/dt are not (output_at_times - t) and the current step', detail_ok='tdiff = output_at_times - t; dt = self.dt')
-        gi = M.enclosing(c, (ast.If,))
-        chain = []
-        while gi is not None:
-            chain.append(compact(gi.test))
-            gi = M.enclosing(gi, (ast.If,))
-        ok = 'numpy.any(timestep_too_big)' in chain and 'len(output_at_times)>0' in chain
-        chk.decide(ok, 'clamp', 'only-when-a-time-is-within-reach', node=c, file=SOL, func='_dump_output_if_needed',
-                   detail_bad='clamp conditions are %s' % chain, detail_ok=str(chain[::-1]))
-        gd = C.build_cfg(dn)
-        sv = [n.id for n in gd.nodes if n.ast is not None and isinstance(n.ast, ast.Assign) and U(n.ast.targets[0]) == 'self._prev_dt']
-        cn = gd.node_of(c)
-        ok = bool(sv) and compact(gd.nodes[sv[0]].ast.value) == 'dt' and gd.dominates(sv[0], cn) and gd.must_pass(gd.entry, cn, sv)
-        chk.decide(ok, 'clamp', 'nominal-step-saved', node=c, file=SOL, func='_dump_output_if_needed',
+        sites = set(id(p_[i].node) for p_, ix in cl_paths for i in ix)
+        chk.decide(len(sites) == 1 and all(len(ix) == 1 for p_, ix in cl_paths), 'clamp', 'single-site', node=cl_paths[0][0][cl_paths[0][1][0]].node, file=SOL, func='_dump_output_if_needed',
+                   detail_bad='self.dt is assigned at %d sites / more than once on a path' % len(sites), detail_ok='one assignment, once per path')
+        TOO_BIG = ('numpy.any((self.output_at_times - self.t > 0) & (self.output_at_times - self.t < self.dt))',
+                   'numpy.any((self.output_at_times - self.t < self.dt) & (self.output_at_times - self.t > 0))')
+        bad = {'lands': None, 'guard': None, 'reach': None, 'saved': None}
+        for p_, ix in cl_paths:
+            e = p_[ix[0]]
+            val = PT.resolve(e.node.value, e.env)
+            v0 = val.args[0] if isinstance(val, ast.Call) and M.call_name(val) == 'float' and len(val.args) == 1 else val
+            subs_ = [x for x in ast.walk(v0) if isinstance(x, ast.Subscript) and compact(x.value) == 'self.output_at_times']
+            lands = bool(subs_) and same(v0, '%s - self.t' % U(subs_[0]))
+            if not lands and bad['lands'] is None:
+                bad['lands'] = U(val)
+            gi_ = PT.took(p_[:ix[0]], True, *TOO_BIG)
+            if gi_ is None and bad['guard'] is None:
+                bad['guard'] = [U(PT.resolve(x.node, x.env)) + ' -> %s' % x.truth for x in p_[:ix[0]] if x.kind == 'cond']
+            li_ = PT.took(p_[:ix[0]], True, 'len(self.output_at_times) > 0', 'len(self.output_at_times) != 0', 'len(self.output_at_times)')
+            if li_ is None and bad['reach'] is None:
+                bad['reach'] = [U(x.node) + ' -> %s' % x.truth for x in p_[:ix[0]] if x.kind == 'cond']
+            sv = [i for i, x in enumerate(p_[:ix[0]]) if x.kind == 'stmt' and isinstance(x.node, ast.Assign) and U(x.node.targets[0]) == 'self._prev_dt'
+                  and compact(PT.resolve(x.node.value, x.env)) == 'self.dt']
+            if not sv and bad['saved'] is None:
+                bad['saved'] = True
+        node_c = cl_paths[0][0][cl_paths[0][1][0]].node
+        chk.decide(bad['lands'] is None, 'clamp', 'lands-on-output-time', node=node_c, file=SOL, func='_dump_output_if_needed',
+                   detail_bad='clamped step is %s (must be <a requested output time> - t: never past a requested time)' % bad['lands'], detail_ok='output_at_times[k] - t')
+        chk.decide(bad['guard'] is None, 'clamp', 'guard', node=node_c, file=SOL, func='_dump_output_if_needed',
+                   detail_bad='a path shortens the step without having found a requested time with 0 < tdiff < dt (tests on that path: %s)' % bad['guard'], detail_ok='(tdiff > 0) & (tdiff < dt)')
+        chk.decide(bad['reach'] is None, 'clamp', 'only-when-a-time-is-within-reach', node=node_c, file=SOL, func='_dump_output_if_needed',
+                   detail_bad='clamp conditions are %s' % bad['reach'], detail_ok='only with requested times, one of them within reach')
+        chk.decide(bad['saved'] is None, 'clamp', 'nominal-step-saved', node=node_c, file=SOL, func='_dump_output_if_needed',
                    detail_bad='the nominal step is not saved in _prev_dt before the step is shortened', detail_ok='self._prev_dt = dt first')
     # --- dump decision
     dd = [a for a in ast.walk(dn) if isinstance(a, ast.Assign) and U(a.targets[0]) == 'dump']
@@ -263,37 +282,69 @@ def main(chk):
     und = M.find_func(cls, '_get_undamped_timestep')
     chk.decide([compact(r.value) for r in ast.walk(und) if isinstance(r, ast.Return)] == ['self.dt/self._damping_factor'], 'nominal-step-in-output',
                'undamped', node=und, file=SOL, func='_get_undamped_timestep', detail_bad='undamped step formula changed', detail_ok='self.dt/self._damping_factor')
-    # --- _get_timestep
+    # --- _get_timestep: decided per feasible path (helpers inlined, path-local names substituted)
     gt = M.find_func(cls, '_get_timestep')
-    gg = C.build_cfg(gt)
-    comp = [n.id for n in gg.nodes if stmt_calls(n, 'self._compute_timestep')]
-    damp = [n.id for n in gg.nodes if stmt_calls(n, 'self._damp_timestep')]
-    rets = [n for n in gg.nodes if isinstance(n.ast, ast.Return)]
-    endret = [n for n in rets if M.enclosing(n.ast, (ast.If,)) is not None and
-              same(M.enclosing(n.ast, (ast.If,)).test, 'abs(self.tf-self.t)<self._epsilon')]
-    others = [n for n in rets if n not in endret]
-    ok = bool(comp) and bool(damp) and bool(others) and all(gg.must_pass(gg.entry, r.id, comp) and gg.must_pass(gg.entry, r.id, damp) for r in others) \
-        and all(gg.dominates(comp[0], d) for d in damp)
-    chk.decide(ok, 'next-step', 'always-recomputed', node=gt, file=SOL, func='_get_timestep',
-               detail_bad='a path returns the next step without calling _compute_timestep() and _damp_timestep(): after a step shortened to '
-                          'land on an output time a stale step would be reused although the stability criteria changed',
-               detail_ok='every continuing path: _compute_timestep() then _damp_timestep()')
-    rest = [n.id for n in gg.nodes if n.ast is not None and isinstance(n.ast, ast.Assign) and U(n.ast.targets[0]) == 'self.dt']
-    ok = len(rest) == 1 and compact(gg.nodes[rest[0]].ast.value) == 'self._prev_dt' and bool(comp) and all(r in gg.reachable(gg.entry, avoid=comp) for r in rest)
-    gi = M.enclosing(gg.nodes[rest[0]].ast, (ast.If,)) if rest else None
-    ok = ok and gi is not None and 'self._prev_dtisnotNone' in compact(gi.test)
-    clr = [a for a in ast.walk(gt) if isinstance(a, ast.Assign) and U(a.targets[0]) == 'self._prev_dt' and compact(a.value) == 'None']
-    chk.decide(ok and bool(clr), 'next-step', 'nominal-step-restored-before-recomputing', node=gt, file=SOL, func='_get_timestep',
-               detail_bad='the saved nominal step is not restored (and cleared) before the next step is computed', detail_ok='self.dt = self._prev_dt; _prev_dt = None; then compute')
-    land = [i for i in ast.walk(gt) if isinstance(i, ast.If) and same(i.test, 'self.t+dt>self.tf-self._epsilon')]
-    ok = bool(land) and len(land[0].body) == 1 and same_stmt(land[0].body[0], 'dt=self.tf-self.t')
-    chk.decide(ok, 'next-step', 'lands-on-tf', node=land[0] if land else gt, file=SOL, func='_get_timestep',
-               detail_bad='the last step is not shortened to tf - t when t + dt would pass tf - epsilon', detail_ok='dt = tf - t')
-    if land and others:
-        ln = gg.node_of(land[0])
-        chk.decide(all(gg.must_pass(gg.entry, r.id, [ln]) for r in others) and all(compact(r.ast.value) == 'dt' for r in others), 'next-step',
-                   'landing-applied-to-returned-value', node=gt, file=SOL, func='_get_timestep', detail_bad='the tf clamp is skipped on some path',
-                   detail_ok='applied last')
+    tpaths = PT.enumerate_paths(M.docstring_stripped(gt.body))
+    chk.unit('paths through _get_timestep', len(tpaths))
+    END = ('abs(self.tf - self.t) < self._epsilon', 'abs(self.t - self.tf) < self._epsilon')
+    cont = [p_ for p_ in tpaths if PT.took(p_, True, *END) is None and p_[-1].kind in ('return', 'end')]
+    endp = [p_ for p_ in tpaths if PT.took(p_, True, *END) is not None]
+
+    def calls_in(e, name):
+        return e.kind in ('stmt', 'return') and any(M.call_name(c) == name for c in M.calls(e.node))
+    bad_rec = bad_rest = bad_land = None
+    any_restore = False
+    for p_ in cont:
+        ic = PT.stmt_index(p_, lambda e: calls_in(e, 'self._compute_timestep'))
+        idp = PT.stmt_index(p_, lambda e: calls_in(e, 'self._damp_timestep'))
+        if ic is None or idp is None or idp < ic:
+            bad_rec = bad_rec or p_
+            continue
+        # restore of the nominal step
+        rs = [i for i, e in enumerate(p_) if e.kind == 'stmt' and isinstance(e.node, ast.Assign) and U(e.node.targets[0]) == 'self.dt']
+        for i in rs:
+            any_restore = True
+            e = p_[i]
+            okr = compact(PT.resolve(e.node.value, e.env)) == 'self._prev_dt' and i < ic and \
+                any(x.kind == 'cond' and x.truth and 'self._prev_dtisnotNone' in compact(PT.resolve(x.node, x.env)) for x in p_[:i]) and \
+                any(x.kind == 'stmt' and isinstance(x.node, ast.Assign) and U(x.node.targets[0]) == 'self._prev_dt' and compact(x.node.value) == 'None' for x in p_[i:ic])
+            if not okr:
+                bad_rest = bad_rest or e.node
+        # a pending nominal step (saved when a step was shortened) is restored on every path that finds one
+        pend = PT.took(p_[:ic], True, 'self._prev_dt is not None and abs(self._prev_dt - self.dt) > self._epsilon', 'self._prev_dt is not None')
+        if pend is not None and not [i for i in rs if i > pend]:
+            bad_rest = bad_rest or p_[pend].node
+        # landing on tf: after damping, `t + dt > tf - eps` is tested; when it holds the returned value is tf - t, otherwise the damped step
+        ret = p_[-1]
+        rv = ret.node.value if ret.kind == 'return' else None
+        if rv is None:
+            bad_land = bad_land or ret.node
+            continue
+        rname = rv.id if isinstance(rv, ast.Name) else None
+        tests = [(i, e) for i, e in enumerate(p_) if i > idp and e.kind == 'cond' and rname is not None and
+                 N_same_landing(e, rname)]
+        if not tests:
+            bad_land = bad_land or ret.node
+            continue
+        i_t, e_t = tests[-1]
+        if e_t.truth:
+            if not same(PT.resolve(rv, ret.env), 'self.tf - self.t'):
+                bad_land = bad_land or e_t.node
+        else:
+            if any(x.kind == 'stmt' and isinstance(x.node, (ast.Assign, ast.AugAssign)) and U(x.node.targets[0] if isinstance(x.node, ast.Assign) else x.node.target) == rname for x in p_[i_t:]):
+                bad_land = bad_land or e_t.node
+    chk.decide(bool(cont) and bad_rec is None, 'next-step', 'always-recomputed', node=gt, file=SOL, func='_get_timestep',
+               detail_bad='a path returns the next step without calling _compute_timestep() and then _damp_timestep(): after a step shortened to '
+                          'land on an output time a stale step would be reused although the stability criteria changed (path: %s)' % ([repr(e)[:60] for e in bad_rec] if bad_rec else 'none continues'),
+               detail_ok='every continuing path (%d): _compute_timestep() then _damp_timestep()' % len(cont))
+    chk.decide(any_restore and bad_rest is None, 'next-step', 'nominal-step-restored-before-recomputing', node=bad_rest or gt, file=SOL, func='_get_timestep',
+               detail_bad='the saved nominal step is not restored (self.dt = self._prev_dt under `_prev_dt is not None`) and cleared before the next step is computed',
+               detail_ok='self.dt = self._prev_dt; _prev_dt = None; then compute')
+    chk.decide(bool(cont) and bad_land is None, 'next-step', 'lands-on-tf', node=bad_land or gt, file=SOL, func='_get_timestep',
+               detail_bad='the last step is not shortened to tf - t exactly when t + dt would pass tf - epsilon (tested after damping, applied to the returned value)', detail_ok='dt = tf - t')
+    chk.decide(bool(endp) and all(p_[-1].kind == 'return' and p_[-1].node.value is not None and compact(PT.resolve(p_[-1].node.value, p_[-1].env)) == 'self.dt' for p_ in endp),
+               'next-step', 'landing-applied-to-returned-value', node=gt, file=SOL, func='_get_timestep',
+               detail_bad='at the end of the run (|tf - t| < epsilon) the current step is not returned unchanged', detail_ok='at t == tf the step is returned as it is')
     # the stability criteria are consulted for every step of an adaptive run: whether compute_time_step is called may depend on the
     # configuration only, never on state that changes while solve() runs (a remembered "no constraint last time")
     ct = M.find_func(cls, '_compute_timestep')
